@@ -627,14 +627,178 @@ static void do_erase_it(int v, int po, int vo, int via_insert, int level)
     check_size("erase_iterator");
 }
 
+/* ---- nested maps (mode "clear", C15): entries whose value owns a map of its own ----
+ * Right before a clear with a callback some of the entries (all, several, one; the smallest and the largest key among
+ * them) are given a private, non-empty map with individually allocated keys, a comparison function and a priv of its
+ * own.  The outer clear callback destroys what the entry owns first: it clears the inner map through the library with
+ * ANOTHER callback function and ANOTHER priv (the inner map's own descriptor), or with the NULL callback.  That is a
+ * clear of another map running inside a clear: every outer entry must still reach the outer callback exactly once
+ * with the outer priv, every inner entry the callback of its own clear call exactly once with that call's priv (none
+ * at all under the NULL callback), nothing the wrong function, nothing after its callback returned, and both maps
+ * end empty and usable.  Half of the inner maps keep the overwritten keys until their clear has returned and verify
+ * the overwrite then, the others free them at once. */
+#define SMAGIC 0x5ab4a9e5u
+#define SUBMAX 4
+struct subm;
+struct fkey { uint32_t magic; int val; struct subm *owner; uint64_t pad; };
+struct subm {
+    uint32_t magic;
+    int n, seen, hold, nullcb, owner_v;
+    struct fkey *se[SUBMAX];            /* stored keys (NULL once handed over) */
+    struct fkey *held[SUBMAX];          /* hold: handed over and overwritten, not freed yet */
+    struct fkey *spare;                 /* for the insert that proves the cleared inner map usable */
+    cstl_map_t m;
+};
+static struct subm *SUB[MAXV];          /* by value */
+static struct subm *cur_sub;            /* the inner map being cleared right now */
+static int outer_running, inner_done, nsubs, sub_token, clr_total, clr_nomem;
+static int is_clear_mode;
+static void nest_reset(int n)
+{
+    int i;
+    for (i = 0; i < n; i++) SUB[i] = NULL;
+    cur_sub = NULL; outer_running = 0; inner_done = 0; nsubs = 0;
+}
+static int sub_cmp(const void *a, const void *b, void *p)
+{
+    const struct fkey *x = a, *y = b;
+    VRT_CHECK(p == (void *)&sub_token, "map.nested.cmp.priv", "comparison of an inner map called with priv %p", p);
+    VRT_CHECK(x != NULL && y != NULL && x->magic == SMAGIC && y->magic == SMAGIC && x->owner == y->owner, "map.nested.cmp.non-key",
+              "comparison of an inner map called with something that is not a live key of that map");
+    return (x->val > y->val) - (x->val < y->val);
+}
+static void *sub_val(struct subm *s, int i) { return (i & 1) ? NULL : (void *)&s->se[i]; }
+static struct fkey *new_fkey(struct subm *s, int val)
+{
+    struct fkey *x = vrt_alloc(sizeof(*x));
+    memset(x, 0x5e, sizeof(*x));
+    x->magic = SMAGIC; x->val = val; x->owner = s;
+    return x;
+}
+static void sub_attach(int v, unsigned salt)
+{
+    struct subm *s = vrt_alloc(sizeof(*s));
+    int i, r;
+    memset(s, 0x5e, sizeof(*s));
+    s->magic = SMAGIC; s->n = 1 + (int)(salt % SUBMAX); s->seen = 0; s->hold = (salt >> 3) & 1; s->nullcb = (salt >> 4) % 3 == 0; s->owner_v = v;
+    VRT_OP2("map.nested.fill", "inner map of the entry of value %ld, %ld entries", v, s->n);
+    cstl_map_init(&s->m, sub_cmp, &sub_token);
+    for (i = 0; i < SUBMAX; i++) s->se[i] = s->held[i] = NULL;
+    for (i = 0; i < s->n; i++) {
+        s->se[i] = new_fkey(s, (int)((salt >> 6) + (unsigned)i * 5u) % 7 * SUBMAX + i);      /* distinct, in no particular order */
+        r = cstl_map_insert(&s->m, s->se[i], sub_val(s, i), NULL);
+        VRT_CHECK(r == 0, "harness.nested.fill", "insert of a new key into an inner map returned %d", r);
+    }
+    s->spare = new_fkey(s, 1000);
+    SUB[v] = s; nsubs++;
+    VRT_COUNT("nested.attached");
+}
+static void sub_clear_cb(void *ev, void *p)
+{
+    const cstl_map_iterator_t *const it = ev;
+    struct fkey *x;
+    int i, k = -1;
+    VRT_CHECK(cur_sub != NULL, "map.clear.nested.callback-outside-its-clear",
+              "the callback given to the clear of an inner map was invoked while no inner clear is running (priv %p)", p);
+    VRT_CHECK(!cur_sub->nullcb, "map.clear.nested.callback-under-null-callback", "a callback was invoked by the clear of an inner map that was given the NULL callback");
+    VRT_CHECK(p == (void *)cur_sub, "map.clear.nested.priv", "inner clear callback got priv %p, not the one passed to its own clear call", p);
+    VRT_CHECK(it != NULL, "map.clear.nested.null-iterator", "inner clear callback got a NULL iterator");
+    for (i = 0; i < cur_sub->n; i++) if (cur_sub->se[i] != NULL && (const void *)cur_sub->se[i] == it->key) k = i;
+    VRT_CHECK(k >= 0, "map.clear.nested.foreign-entry", "inner clear callback was handed a key that is not a stored key of the inner map being cleared (or an entry twice)");
+    x = cur_sub->se[k];
+    VRT_CHECK(x->magic == SMAGIC && x->owner == cur_sub, "map.clear.nested.key-damaged", "key handed to the inner clear callback does not carry its owner's marks any more");
+    VRT_CHECK(it->val == sub_val(cur_sub, k), "map.clear.nested.val", "inner clear callback got value pointer %p, stored was %p", it->val, sub_val(cur_sub, k));
+    cur_sub->se[k] = NULL;
+    cur_sub->seen++;
+    memset(x, 0xa5, sizeof(*x));
+    if (cur_sub->hold) cur_sub->held[k] = x; else vrt_free(x);
+    VRT_COUNT("clear.nested.handed-over");
+}
+/* the owning entry is being destroyed (inside the outer clear callback): clear its map through the library */
+static void sub_destroy(int v)
+{
+    struct subm *s = SUB[v], *prev = cur_sub;
+    cstl_map_iterator_t it;
+    const int outer_before = clr_total;
+    int i, r;
+    size_t k, live;
+    cur_sub = s; s->seen = 0;
+    live = vrt_lib_live();
+    VRT_OP3("map.nested.clear", "inner map of the entry of value %ld (%ld entries, callback=%ld), from the clear callback of the outer map", v, s->n, !s->nullcb);
+    if (s->nullcb) cstl_map_clear(&s->m, NULL, NULL); else cstl_map_clear(&s->m, sub_clear_cb, s);
+    cur_sub = prev;
+    VRT_CHECK(clr_total == outer_before, "map.clear.nested.wrong-callback", "the clear of an inner map invoked the callback given to the clear of the outer map");
+    if (s->nullcb) {
+        /* nothing was handed over: the keys are still the owner's */
+        for (i = 0; i < s->n; i++) { memset(s->se[i], 0xa5, sizeof(struct fkey)); vrt_free(s->se[i]); s->se[i] = NULL; }
+        VRT_COUNT("clear.nested.null-callback");
+    } else VRT_CHECK(s->seen == s->n, "map.clear.nested.count", "inner clear handed over %d of %d entries", s->seen, s->n);
+    for (i = 0; i < s->n; i++) if (s->held[i] != NULL) {
+        const unsigned char *b = (const unsigned char *)s->held[i];
+        for (k = 0; k < sizeof(struct fkey) && b[k] == 0xa5; k++) ;
+        VRT_CHECK(k == sizeof(struct fkey), "map.clear.nested.touched-after-callback", "key of an inner map written at byte %zu after its clear callback had returned", k);
+        vrt_free(s->held[i]); s->held[i] = NULL;
+        VRT_COUNT("clear.nested.overwrite-verified");
+    }
+    VRT_CHECK(cstl_map_size(&s->m) == 0, "map.clear.nested.not-empty", "inner map reports size %zu after its clear", cstl_map_size(&s->m));
+    VRT_CHECK(vrt_lib_live() + (size_t)s->n == live, "map.clear.nested.alloc.live-after-clear", "clear of an inner map with %d entries released %zu blocks", s->n, live - vrt_lib_live());
+    /* usable like a fresh one (the insert needs memory: refused while the outer clear runs under an allocator that refuses everything) */
+    cstl_map_find(&s->m, s->spare, &it);
+    VRT_CHECK(cstl_map_iterator_eq(&it, cstl_map_iterator_end(&s->m)), "map.clear.nested.reuse", "find on the cleared inner map found something");
+    r = cstl_map_insert(&s->m, s->spare, s, &it);
+    if (r == 0) {
+        VRT_CHECK(cstl_map_size(&s->m) == 1 && it.key == (const void *)s->spare && it.val == (void *)s, "map.clear.nested.reuse", "insert into the cleared inner map: size %zu, iterator does not show the pair", cstl_map_size(&s->m));
+        r = cstl_map_erase(&s->m, s->spare, NULL);
+        VRT_CHECK(r == 0 && cstl_map_size(&s->m) == 0 && vrt_lib_live() + (size_t)s->n == live, "map.clear.nested.reuse", "erase of the only entry of the re-used inner map returned %d, size %zu", r, cstl_map_size(&s->m));
+        VRT_COUNT("clear.nested.reused");
+    } else {
+        VRT_CHECK(r == -1 && clr_nomem && cstl_map_size(&s->m) == 0, "map.clear.nested.reuse", "insert into the cleared inner map returned %d, size %zu", r, cstl_map_size(&s->m));
+        VRT_COUNT("clear.nested.reuse-refused-by-allocator");
+    }
+    vrt_free(s->spare);
+    memset(s, 0xa5, sizeof(*s));
+    vrt_free(s);
+    SUB[v] = NULL; nsubs--;
+    inner_done++;
+    VRT_COUNT("clear.nested.maps-cleared");
+}
+/* give some entries a map of their own; which ones changes from clear to clear */
+static void sub_attach_some(void)
+{
+    const unsigned salt = vrt_case_tick() * 2654435761u + 0x9e37u;
+    const int variant = (int)((salt >> 28) % 4), small = nv <= 64;
+    int v, lo = -1, hi = -1, owners = 0, idx = 0;
+    for (v = 0; v < nv; v++) if (M[v].present) { if (lo < 0) lo = v; hi = v; }
+    for (v = 0; v < nv; v++) {
+        const unsigned h = (salt ^ (unsigned)v * 40503u) * 2246822519u >> 16;
+        int own;
+        if (!M[v].present) continue;
+        switch (variant) {
+        case 0: own = small || v == lo || v == hi || h % 8 == 0; break;                /* all (large maps: both ends, every eighth) */
+        case 1: own = v == lo || v == hi; break;                                        /* smallest and largest key */
+        case 2: own = small ? h % 2 == 0 : h % 16 == 0; break;                          /* some */
+        default: own = small ? ((salt >> 8) % (unsigned)Mn == (unsigned)idx) : h % 32 == 0; break;   /* one, anywhere */
+        }
+        idx++;
+        if (!own) continue;
+        sub_attach(v, h ^ (salt >> 7));
+        owners++;
+    }
+    if (owners >= 2) VRT_COUNT("clear.nested.several-owners");
+    if (owners > 0 && owners < Mn) VRT_COUNT("clear.nested.owners-and-plain-entries");
+}
+
 /* clear callback: exactly-once state machine over the entries, poison, free */
-static int clr_seen;
+static int clr_seen, clr_size;
 static void clear_cb(void *e, void *p)
 {
     const cstl_map_iterator_t *const i = e;
     const struct kobj *k;
     int v;
 
+    clr_total++;
+    VRT_CHECK(cur_sub == NULL, "map.clear.nested.wrong-callback", "the clear of an inner map invoked the callback given to the clear of the outer map");
+    VRT_CHECK(outer_running, "map.clear.callback-outside-its-clear", "clear callback invoked while its clear is not running");
     VRT_CHECK(p == (void *)&clr_cookie, "map.clear.cb-priv", "clear callback got priv %p, expected %p", p, (void *)&clr_cookie);
     VRT_CHECK(i != NULL, "map.clear.cb-null-iterator", "clear callback got a NULL iterator");
     if (nv <= 64) {
@@ -668,6 +832,14 @@ static void clear_cb(void *e, void *p)
     clr_seen++;
     if (M[v].v == NULL) VRT_COUNT("clear.handed-over.null-value");
     if (k == NULL) VRT_COUNT("clear.handed-over.null-key");
+    if (inner_done) VRT_COUNT("clear.nested.outer-went-on-after-inner-clear");
+    if (SUB[v] != NULL) {
+        if (clr_seen == 1) VRT_COUNT("clear.nested.first-handed-over-owns-a-map");
+        if (clr_seen == clr_size) VRT_COUNT("clear.nested.last-handed-over-owns-a-map");
+        if (clr_seen > 1 && clr_seen < clr_size) VRT_COUNT("clear.nested.inner-entry-owns-a-map");
+        sub_destroy(v);
+        VRT_OP2("map.clear", "callback=1 entries=%ld (goes on after the nested clear in the callback for value %ld)", clr_size, v);
+    }
     release_objs(v);            /* poison + free: the map must not look at them again */
     VRT_COUNT("clear.handed-over");
 }
@@ -680,24 +852,30 @@ static void do_clear(int nullcb, int level)
 
     other_map_drop();           /* outside the event window; the callback is about to free key objects it may hold */
     for (v = 0; v < nv; v++) { M[v].handed = 0; M[v].handed_k = NULL; if (M[v].present) gen[v]++; }
-    clr_seen = 0;
+    clr_seen = 0; clr_size = before; inner_done = 0;
+    if (is_clear_mode && !nullcb && Mn > 0) sub_attach_some();
     vrt_state(Mn == 0 ? "empty" : Mn == 1 ? "one-entry" : "several-entries");
     VRT_OP2("map.clear", "callback=%ld entries=%ld", !nullcb, Mn);
     vrt_ev_begin();
+    outer_running = 1; clr_nomem = 0;
     if (vrt_case_tick() & 1) {
         if (nullcb) cstl_map_clear(map, NULL, NULL);
         else cstl_map_clear(map, clear_cb, &clr_cookie);
     } else {
         /* clear has no way to fail: every second one runs while the allocator refuses everything */
+        clr_nomem = 1;
         VRT_NOMEM(if (nullcb) cstl_map_clear(map, NULL, NULL); else cstl_map_clear(map, clear_cb, &clr_cookie));
     }
+    outer_running = 0;
     if (!nullcb) {
         VRT_CHECK(clr_seen == before, "map.clear.cb-count", "clear handed over %d of %d entries", clr_seen, before);
     }
+    VRT_CHECK(nsubs == 0, "map.clear.nested.owner-not-handed-over", "%d entries that own a map were not handed to the clear callback", nsubs);
+    if (inner_done) VRT_COUNT("op.clear.with-nested-clears");
     /* every node block released, nothing else touched */
     ev_sum(&s);
     VRT_CHECK(s.nnew == 0, "map.clear.alloc.leaked-block", "clear allocated and kept %d block(s)", s.nnew);
-    if (!s.overflow && !alloc_model_off) {
+    if (!s.overflow && !alloc_model_off && !inner_done) {        /* (nested clears released the nodes of the inner maps in this window) */
         /* the per-entry pattern (an observation, see SOFTK); the statement itself is checked below: nothing live after clear */
         if (s.nfreed != before) SOFTK("clear", "clear-freed-another-number-of-blocks-than-entries");
         for (j = 0; j < s.nfreed && !alloc_model_off; j++) {
@@ -832,7 +1010,6 @@ static uint64_t st_sig(void)
     return h;
 }
 static int st_nontrivial(void) { return Mn >= 2; }
-static int is_clear_mode;
 static int st_nontrivial_clear(void) { return Mn >= 1; }
 
 static void audit_full(void)
@@ -921,6 +1098,7 @@ static void setup(int nvalues, int nobjs, int descending, int smode)
     memset(V, 0, (size_t)nv * sizeof(V[0]));
     memset(M, 0, (size_t)nv * sizeof(M[0]));
     Mn = 0; hist = 0x1157; cleared_once = 0; lean = 0;
+    nest_reset(nv);
     memset(last_d, 0, (size_t)nv * sizeof(last_d[0]));
     memset(gen, 0, (size_t)nv * sizeof(gen[0]));
     memset(&CI, 0x5a, sizeof(CI));
@@ -1346,7 +1524,12 @@ static const char *const required_clear[] = {
     "op.insert.null-value", "clear.handed-over.null-value",
     "op.insert.null-key", "op.find.null-key.present", "op.erase.null-key", "clear.handed-over.null-key",
     "clear.handed-over", "op.clear.callback.several", "op.insert.after-clear", "op.erase.present",
-    "op.erase_iterator", "closure.states", "closure.scopes-closed", "closure.probes", "random.histories", NULL
+    "op.erase_iterator", "closure.states", "closure.scopes-closed", "closure.probes", "random.histories",
+    /* a clear inside a clear */
+    "nested.attached", "clear.nested.handed-over", "clear.nested.maps-cleared", "clear.nested.overwrite-verified", "clear.nested.null-callback",
+    "clear.nested.first-handed-over-owns-a-map", "clear.nested.last-handed-over-owns-a-map", "clear.nested.inner-entry-owns-a-map",
+    "clear.nested.several-owners", "clear.nested.owners-and-plain-entries", "clear.nested.outer-went-on-after-inner-clear",
+    "clear.nested.reused", "op.clear.with-nested-clears", NULL
 };
 static const struct vrt_harness H = { "map", ncases, run_case, winit, wfini, required, 16 };
 static const struct vrt_harness Hplain = { "map", ncases, run_case, winit, wfini, required_plain, 16 };
